@@ -1,6 +1,7 @@
 package main
 
 import (
+	"go/types"
 	"fmt"
 	"sort"
 	"strings"
@@ -294,6 +295,15 @@ func c01r4(r *R) {
 	// separators
 	for _, s := range [][2]string{{"sepValueByte", "45"}, {"sepFieldByte", "44"}} {
 		e, pp := c.varInit("pkg/ja3", s[0])
+		if e == nil {
+			// declared as a constant instead of a variable
+			if p := c.pkgOf("pkg/ja3"); p != nil && p.Types != nil {
+				if k, ok := p.Types.Scope().Lookup(c.nowName("pkg/ja3", s[0])).(*types.Const); ok {
+					o.Check(k.Val().ExactString() == s[1], "%s is %v, want %s", s[0], k.Val(), s[1])
+					continue
+				}
+			}
+		}
 		if o.Check(e != nil, "%s not found", s[0]) {
 			v := constOf(pp, e)
 			o.Check(v != nil && v.ExactString() == s[1], "%s is %v, want %s ('%c')", s[0], v, s[1], rune(s[1][0]-'0')*10+rune(s[1][1]-'0'))
@@ -305,8 +315,9 @@ func c01r5(r *R) {
 	c := r.C
 	bare := c.Func("pkg/ja3", "Bare")
 	r.need(bare != nil, "ja3.Bare not found")
-	fsep := sepAppends(c, bare, "ja3.sepFieldByte")
-	vsep := sepAppends(c, bare, "ja3.sepValueByte")
+	// the separators render as their values (44 ',' and 45 '-'), whether declared var or const (C01.R4 pins the values)
+	fsep := sepAppends(c, bare, "44")
+	vsep := sepAppends(c, bare, "45")
 	o := r.Ob("C01.R5", "field-structure:"+funcName(bare)).At(bare.Pos())
 	isF := map[ssa.Instruction]bool{}
 	for _, s := range fsep {
@@ -362,7 +373,7 @@ func c01r5(r *R) {
 			case "bytes.TrimSuffix":
 				trims++
 				els := variadicElems(a.Call.Args[1])
-				o.AtI(a).Check(len(els) == 1 && c.Expr(els[0]) == "ja3.sepValueByte", "TrimSuffix removes %v, want the value separator", els)
+				o.AtI(a).Check(len(els) == 1 && c.Expr(els[0]) == "45", "TrimSuffix removes %v, want the value separator", els)
 			case "strconv.AppendInt":
 				o.Check(c.Expr(a.Call.Args[1]) == "p0.HandshakeVersion", "a field separator directly follows %s", c.Expr(a.Call.Args[1]))
 			default:
